@@ -205,6 +205,15 @@ func raceSystem(seed uint64, withLog bool) *raceDigest {
 		c := &s.CPU
 		d.add("run %d ok=%v pc=%06x A=%04x X=%04x Y=%04x SP=%04x D=%04x DBR=%02x P=%d%d%d%d%d%d%d%d E=%d cyc=%d wdm=%02x",
 			round, ok, s.GetPC(), c.RA, c.RX, c.RY, c.SP, c.RD, c.RDBR, c.N, c.V, c.M, c.X, c.D, c.I, c.Z, c.C, c.E, c.AllCycles, c.WDM)
+		// the hardware-register window ($2000-$7FFF of the system banks) belongs to this System too
+		raceGuard(d, "io", func() {
+			for k := 0; k < 6; k++ {
+				a := uint32(r.next()%0x40)<<16 | 0x2100 + uint32(r.next()%0x2300)
+				v := byte(r.next())
+				s.Bus.EaWrite(a, v)
+				d.add("io %06x<-%02x reads %02x / %02x", a, v, s.Bus.EaRead(a), s.Bus.EaRead(a^0x800000))
+			}
+		})
 		d.add("wram %x", s.WRAM[0:0x60])
 		d.add("wram1 %x", s.WRAM[0x100:0x120])
 		d.add("listing %s", listing)
